@@ -51,8 +51,8 @@ func TestCheck(t *testing.T) {
 	reactx.SetDelays(0)
 	matrix := reactx.Matrix(points, actions)
 	M := len(matrix)
-	variants := run.N(2, 100)
-	nRandom := run.N(250, 40000)
+	variants := run.N(2, 250)
+	nRandom := run.N(250, 120000)
 	total := M*variants + nRandom
 	agg := vlib.NewHitAgg()
 	pf := reactx.Profile{Cache: true}
@@ -89,6 +89,12 @@ func TestCheck(t *testing.T) {
 	}
 
 	run.Each(total, 1, func(i int) {
+		if _, replay := run.Only(); !replay && run.Violations() >= 6 {
+			// a broken tree costs ~2 s of quiescence classification per
+			// violating scenario; six witnesses per shard are enough
+			run.Count("cases_skipped_after_6_violations", 1)
+			return
+		}
 		if i < M*variants {
 			cell := matrix[i%M]
 			variant := i / M
